@@ -41,6 +41,72 @@ class _TestStreamFace(StreamFace):
         return True
 
 
+def run_two_faces(case):
+    """Two StreamFace instances in one event loop, each fed its own stream, chunks interleaved: each face must deliver
+    exactly its own packets (no state may be shared between face instances)."""
+    r = Result()
+    streams = []
+    for pk in (case['a'], case['b']):
+        pkts = [T.enc_num(t) + T.enc_num(n) + bytes((f + i) & 0xFF for i in range(n)) for t, n, f in pk]
+        streams.append(pkts)
+    vl = VLoop()
+    try:
+        faces, gots, tasks = [], [[], []], []
+        for idx in range(2):
+            face = _TestStreamFace()
+
+            async def cb(typ, buf, idx=idx):
+                gots[idx].append(bytes(buf))
+            face.callback = cb
+            faces.append(face)
+
+        class _W:
+            def close(self):
+                pass
+
+        async def setup():
+            for face in faces:
+                face.reader = asyncio.StreamReader()
+                face.writer = _W()
+                await face.open()
+                tasks.append(asyncio.get_running_loop().create_task(face.run()))
+        vl.run(setup())
+        vl.settle()
+        data = [b''.join(p) for p in streams]
+        pos = [0, 0]
+        for which, n in case['schedule']:
+            which %= 2
+            if pos[which] >= len(data[which]):
+                which = 1 - which
+            if pos[which] >= len(data[which]):
+                break
+            chunk = data[which][pos[which]:pos[which] + max(1, n)]
+            pos[which] += len(chunk)
+            vl.call(faces[which].reader.feed_data, chunk)
+            vl.settle()
+        for which in range(2):
+            if pos[which] < len(data[which]):
+                vl.call(faces[which].reader.feed_data, data[which][pos[which]:])
+                vl.settle()
+        for face in faces:
+            vl.call(face.reader.feed_eof)
+        vl.advance(0.01)
+        for idx in range(2):
+            if gots[idx] != streams[idx]:
+                r.bad('C06/framing/two-faces-interfere', f'face {idx}: delivered {[len(x) for x in gots[idx]]} packets of sizes, '
+                      f'expected {[len(x) for x in streams[idx]]}; schedule={case["schedule"][:10]}')
+                break
+        errs = vl.collect_errors()
+        if errs and not r.violations:
+            r.bad(f'C06/framing/two-faces/unhandled-loop-error/{errs[0]["type"]}', str(errs[:2]))
+    finally:
+        vl.close()
+    switches = sum(1 for x, y in zip(case['schedule'], case['schedule'][1:]) if x[0] % 2 != y[0] % 2)
+    r.key = ('two-faces', len(case['a']), len(case['b']), min(switches, 6)) if switches >= 2 else None
+    r.classes = ('two-faces',)
+    return r
+
+
 def run_framing(case):
     r = Result()
     pkts = [T.enc_num(t) + T.enc_num(n) + bytes((f + i) & 0xFF for i in range(n)) for t, n, f in case['pkts']]
@@ -201,11 +267,27 @@ def _input_spec():
     seed = st.fixed_dictionaries({'fam': st.just('seed'), 'seed': st.sampled_from(sorted(SEEDS))})
     mutated = st.fixed_dictionaries({'fam': st.just('mutated'), 'seed': st.sampled_from(sorted(SEEDS)),
                                      'muts': st.lists(M.mutation_spec(), min_size=1, max_size=3)})
-    return st.one_of(raw, raw_framed, raw_framed, seed, mutated, mutated, mutated, mutated)
+    near = st.fixed_dictionaries({'fam': st.just('near-bystander'), 'i': st.integers(0, 2), 'k': st.integers(0, 4)})
+    return st.one_of(raw, raw_framed, raw_framed, seed, mutated, mutated, mutated, mutated, near)
 
 
 def build_input(spec):
     fam = spec['fam']
+    if fam == 'near-bystander':
+        # valid packets nobody waits for, whose names are close to - but do not match - the bystanders' names:
+        # Data with a LONGER name than a pending Interest that has no CanBePrefix, Data for the parent, a Nack for a
+        # longer name, an Interest for the parent of the handlers' prefixes
+        i = spec['i']
+        k = spec['k'] % 5
+        if k == 0:
+            return net.data_wire([KEEP, net.comp(f'p{i}'), net.comp('x')], content=b'longer')
+        if k == 1:
+            return net.data_wire([KEEP], content=b'shorter')
+        if k == 2:
+            return net.lp_wrap(net.interest_wire([KEEP, net.comp(f'p{i}'), net.comp('x')], nonce=4), nack_reason=150)
+        if k == 3:
+            return net.interest_wire([KEEP], nonce=5)
+        return net.data_wire([KEEP, net.comp(f'p{i}x')], content=b'sibling')
     if fam == 'random':
         return bytes.fromhex(spec['hex'])
     if fam == 'random-framed':
@@ -264,7 +346,7 @@ def run_robust(case):
         n_eval = 0
         for spec in case['inputs']:
             w = build_input(spec)
-            if b'keep' in w:
+            if b'keep' in w and spec['fam'] != 'near-bystander':
                 continue
             ok_frame = framed_ok(w)
             if not target.startswith('udp') and not ok_frame:
@@ -392,6 +474,11 @@ SUBCHECKS = {
     'framing-cuts': SubCheck(run_framing, enumerate=_framing_enum, exhaustive={'quick': True, 'thorough': True},
                              note='every single cut position and every adjacent pair of cuts of fixed streams <= 600 B (incl. truncated tails)'),
     'framing': SubCheck(run_framing, strategy=lambda tier: _framing_case(), examples={'quick': 600, 'thorough': 20000}),
+    'two-faces': SubCheck(run_two_faces, strategy=lambda tier: st.fixed_dictionaries({
+        'a': st.lists(_PKT.filter(lambda p: p[1] <= 300), min_size=1, max_size=4),
+        'b': st.lists(_PKT.filter(lambda p: p[1] <= 300), min_size=1, max_size=4),
+        'schedule': st.lists(st.tuples(st.integers(0, 1), st.integers(1, 9)).map(list), min_size=2, max_size=40)}),
+        examples={'quick': 300, 'thorough': 10000}),
     'robust-v2': SubCheck(run_robust, strategy=lambda tier: _robust_case('v2'), examples={'quick': 1500, 'thorough': 60000}),
     'robust-legacy': SubCheck(run_robust, strategy=lambda tier: _robust_case('legacy'), examples={'quick': 1500, 'thorough': 60000}),
     'robust-udp-v2': SubCheck(run_robust, strategy=lambda tier: _robust_case('udp-v2'), examples={'quick': 800, 'thorough': 30000}),
